@@ -298,6 +298,17 @@ const S_KINDS: &[PointKind] = &[PointKind::Atomic, PointKind::Channel, PointKind
 /// "exit cleanup runs once": while A is inside post_stop (its name is free again), a successor takes the
 /// name and joins a group; A's remaining exit steps must not touch what now belongs to the successor.
 fn once_body(cause: Cause) -> vsched::Body {
+    once_body_x(cause, false)
+}
+
+/// (also used by the C10 check: the name of a slowly exiting holder, late requests, a successor)
+pub fn name_handover_body(drain: bool) -> vsched::Body {
+    once_body_x(if drain { Cause::Drain } else { Cause::Stop }, true)
+}
+
+/// `meddle`: while A is on its way out, another task keeps calling drain() / stop() on it (late, repeated
+/// requests) and a watcher records every status it reads: the status never moves backwards
+fn once_body_x(cause: Cause, meddle: bool) -> vsched::Body {
     Arc::new(move || {
         Box::pin(async move {
             let log = Log::default();
@@ -316,6 +327,34 @@ fn once_body(cause: Cause) -> vsched::Body {
                 let _ = a2.wait(None).await;
                 vsched::ret_stamp()
             });
+            let a3 = a.clone();
+            let meddler = vsched::spawn("meddler", async move {
+                if meddle {
+                    for i in 0..6 {
+                        if i % 2 == 0 {
+                            let _ = a3.drain();
+                        } else {
+                            a3.stop(Some("again".into()));
+                        }
+                        vsched::sleep(Duration::from_millis(1)).await;
+                    }
+                }
+            });
+            let a4 = a.clone();
+            let watcher = vsched::spawn("watcher", async move {
+                let mut seen = vec![a4.get_status()];
+                for _ in 0..60 {
+                    let s = a4.get_status();
+                    if seen.last() != Some(&s) {
+                        seen.push(s);
+                    }
+                    if s == ActorStatus::Stopped {
+                        break;
+                    }
+                    vsched::yield_now().await;
+                }
+                seen
+            });
             let log2 = log.clone();
             let successor = vsched::spawn("successor", async move {
                 // take the name as soon as it is free
@@ -331,10 +370,15 @@ fn once_body(cause: Cause) -> vsched::Body {
                 None
             });
             let wait_ret = closer.await;
+            let _ = meddler.await;
+            let statuses = watcher.await.unwrap_or_default();
             let succ = successor.await.flatten();
             let _ = ah.await;
             vsched::quiesce_time();
             let mut bad = Vec::new();
+            if statuses.windows(2).any(|w| w[1] < w[0]) {
+                bad.push(format!("the observed status moved backwards: {statuses:?}"));
+            }
             let key;
             match succ {
                 Some((b, bh, took_at)) => {
@@ -385,12 +429,13 @@ pub fn plan(tier: &str) -> Plan {
     units.push(Unit::explore(Job::new("timeout/exact", t_cfg.clone(), Some(bound), timeout_body())));
     for cause in [Cause::Stop, Cause::Kill, Cause::Drain] {
         units.push(Unit::explore_split(Job::new(format!("cleanup-once/{cause:?}"), cfg.clone(), Some(bound), once_body(cause)), 4));
+        units.push(Unit::explore_split(Job::new(format!("cleanup-once/{cause:?}+late-requests"), cfg.clone(), Some(bound), once_body_x(cause, true)), 4));
     }
     units.push(Unit::explore(Job::new("timeout/no-effect", t_cfg.clone(), Some(bound + 1), timeout_no_effect_body())));
     Plan {
         property: "C06",
         units,
-        rule: "actor A (named, pg member, pg monitor, one child, supervised) exits by stop/kill/drain/Err/panic/task abort while three waiters (parked before, concurrent, after) use wait / *_and_wait / the join handle; deviation-bounded DFS with a decision point before every atomic, lock, map, notify and channel operation of the waiters and of A's own task; the oracle snapshots status, registry, pg, tree links at the moment each wait returns and checks the supervisor's log against markers sent by the waiters; a wait that never returns is reported as a hang by the scheduler; cleanup-once: a successor takes the name and joins a group while A is inside post_stop and must keep both after A finished; non-trivial = execution with >= 1 branching decision".into(),
+        rule: "actor A (named, pg member, pg monitor, one child, supervised) exits by stop/kill/drain/Err/panic/task abort while three waiters (parked before, concurrent, after) use wait / *_and_wait / the join handle; deviation-bounded DFS with a decision point before every atomic, lock, map, notify and channel operation of the waiters and of A's own task; the oracle snapshots status, registry, pg, tree links at the moment each wait returns and checks the supervisor's log against markers sent by the waiters; a wait that never returns is reported as a hang by the scheduler; cleanup-once: late and repeated drain / stop requests arrive while A is on its way out (a watcher checks that the status never moves backwards), a successor takes the name and joins a group while A is inside post_stop and must keep both after A finished; non-trivial = execution with >= 1 branching decision".into(),
         assumptions: vec![
             "sequential consistency; tokio Notify / channel operations are atomic steps".into(),
             "whole-map DashMap operations (remove, iter) are atomic with respect to guarded accesses".into(),
